@@ -310,7 +310,7 @@ def run_world(rng, res, idx):
 
 
 def plan(tier, seed):
-    n = tier_value(tier, 120, 3200)
+    n = tier_value(tier, 120, 6400)
     shards = tier_value(tier, 12, 14)
     per = n // shards
     return [dict(first=i * per, count=per, budget_s=tier_value(tier, 50, 560)) for i in range(shards)]
